@@ -446,12 +446,53 @@ def blank_scanner_stops_only_at_non_blank(prog, rep, R):
                 return bool(eval_desc(vdesc(res), {"arg%d" % n: v}))
             scans.append((nm, canon(b, c.args[0]), pred))
 
+    # `count(take_while(bytes(S), P))` = n: the n elements in front satisfy P, the element at n (if there is one) does not
+    prefix_counts = []
+    for c in b.calls():
+        nm = (c.callee or "").split("::")[-1]
+        if nm == "take_while" and len(c.args) == 2 and c.args[1]["k"] in ("copy", "move") and not c.args[1]["place"]["p"]:
+            cb = prog.body(norm(b.locals[c.args[1]["place"]["l"]].get("closure") or ""))
+            if cb is None or cb.loops():
+                continue
+            try:
+                ctb = Table(prog, cb, inline=1)
+            except TooComplex:
+                continue
+
+            def tpred(v, ctb=ctb, n=cb.arg_count):
+                res, _ = run_concrete(ctb, {"arg%d" % n: v})
+                return bool(eval_desc(vdesc(res), {"arg%d" % n: v}))
+            prefix_counts.append((canon(b, c.args[0]), tpred))
+            try:
+                taken = [v for v in range(256) if tpred(v)]
+                if ("bytes(" in canon(b, c.args[0])) and [v for v in taken if v > 0x20]:
+                    pass_over = ["U+%04X" % v for v in taken if v > 0x20][:3]
+                else:
+                    pass_over = []
+            except Unknown:
+                pass_over = []
+            if pass_over:
+                prefix_counts[-1] = prefix_counts[-1] + (pass_over,)
+
+    def stopped_at(text):
+        """text = `get(as_bytes(S), count(take_while(bytes(S), closure)))..` -> the predicate the element there fails"""
+        m = re.match(r"^get\((?:as_bytes|deref)?\(?(.+?)\)?,count\(take_while\((.+),closure[^)]*\)\)\)", text)
+        if not m:
+            return None
+        for recv, tp, *rest in prefix_counts:
+            if recv == m.group(2):
+                return tp
+        return None
+
     def scan_for(text):
         for nm, recv, pred in scans:
             if text.startswith("%s(%s," % (nm, recv)):
                 return recv, pred
         return None
     bad, nexits, too_much = [], 0, []
+    for pc in prefix_counts:
+        if len(pc) == 3:
+            too_much.append("take_while(..).count(): counts %s as blanks" % pc[2])
     for nm, recv, pred in scans:
         try:
             skipped = [v for v in range(256) if not pred(v)]
@@ -491,6 +532,10 @@ def blank_scanner_stops_only_at_non_blank(prog, rep, R):
                 continue
             if any(c[0] == "cond" and c[2] != 0 and re.match(r"^is_empty\(", str(c[1])) for c in cons):
                 continue
+            # `bytes.get(n)` is None for the returned n: the input is exhausted
+            rv = r[5:] if r.startswith("call:") else r
+            if any(c[0] == "is" and c[2] == "None" and re.match(r"^get\(.+,%s\)$" % re.escape(rv), str(c[1])) for c in cons):
+                continue
             # a library scan that found nothing: every element fails P; fine when everything that fails P is blank and all of it is counted
             none_scan = [scan_for(str(c[1])) for c in cons if c[0] == "is" and c[2] == "None"]
             none_scan = [x for x in none_scan if x]
@@ -517,10 +562,13 @@ def blank_scanner_stops_only_at_non_blank(prog, rep, R):
                 # `S[position(iter(S), P)@Some.0]`: the element the scan stopped at satisfies P
                 m2 = re.match(r"^(.+)\[((?:position|find)\(.+\))@Some\.0\]$", x)
                 found_by = scan_for(m2.group(2)) if m2 else None
+                fails = stopped_at(x) if x.endswith("@Some.0") else None
                 try:
                     sat = [v for v in cand if all(bool(eval_desc(d.replace(x, "X"), {"X": v})) == (t != 0) for d, t in cs)]
                     if found_by and m2.group(1) in found_by[0]:
                         sat = [v for v in sat if found_by[1](v)]
+                    if fails:
+                        sat = [v for v in sat if not fails(v)]
                 except Unknown:
                     continue
                 blanks = [v for v in sat if v <= 0x20 or v == 0x3000 or (isbyte and v == 0xE3)]
@@ -551,9 +599,11 @@ def blank_definition(prog, rep, R):
         out = [b] + [x for x in prog.bodies.values() if x.npath.startswith(b.npath + "::")]
         for x in list(out):
             for c in x.calls():
-                cb = prog.body(c.target or "")
-                if cb is not None and cb.npath.startswith(LX) and cb not in out and cb.npath not in (LX + "count_unicode_whitespace", LX + "count_leading_whitespace"):
-                    out.append(cb)
+                cands = [c.target or ""] + [norm(a["fn"]) for a in c.args if a["k"] == "const" and a.get("fn")]      # also a predicate handed over as a function item
+                for t in cands:
+                    cb = prog.body(t)
+                    if cb is not None and cb.npath.startswith(LX) and cb not in out and cb.npath not in (LX + "count_unicode_whitespace", LX + "count_leading_whitespace"):
+                        out.append(cb)
         return out
     # (which bytes the ASCII part accepts, and that it hands over to the complete scanner, is decided path-wise by
     #  blank_scanner_stops_only_at_non_blank — the constants 0x20 / 0x7F are no longer matched literally)
